@@ -6,6 +6,7 @@ import (
 	"fmt"
 	"net/url"
 	"regexp"
+	"slices"
 	"sort"
 	"strings"
 	"time"
@@ -57,31 +58,23 @@ func refMethods(cfg []string, m string) (match bool, defined bool) {
 		return true, true
 	}
 
-	set := map[string]bool{}
-	hasAll := false
-
-	for _, e := range cfg {
-		if e == "ALL" {
-			hasAll = true
-		}
-	}
-
-	if hasAll {
-		for _, a := range allMethods {
-			set[a] = true
-		}
-	}
-
+	// the list is a set: allowed are the listed methods and, with ALL, every method; an exclusion removes its method
+	// wherever it stands in the list
+	allowed, excluded := map[string]bool{}, map[string]bool{}
 	onlyExclusions := true
 
 	for _, e := range cfg {
 		switch {
 		case e == "ALL":
 			onlyExclusions = false
+
+			for _, a := range allMethods {
+				allowed[a] = true
+			}
 		case strings.HasPrefix(e, "!"):
-			delete(set, e[1:])
+			excluded[e[1:]] = true
 		default:
-			set[e] = true
+			allowed[e] = true
 			onlyExclusions = false
 		}
 	}
@@ -90,7 +83,11 @@ func refMethods(cfg []string, m string) (match bool, defined bool) {
 		return false, false // a list with only exclusions and no ALL: not settled by the statement
 	}
 
-	return set[m], true
+	if excluded[m] && slices.Contains(cfg, m) {
+		return false, false // the method is listed and excluded at once: contradictory, not settled by the statement
+	}
+
+	return allowed[m] && !excluded[m], true
 }
 
 // refGlob is the reference for the documented glob dialect restricted to the alphabet's constructs: literals, '?' (one
@@ -493,11 +490,11 @@ func Check() *engine.Check {
 	return &engine.Check{
 		ID:    "C03",
 		Level: "exploration",
-		Rule: "(conditions) full product of scheme {unset,http,https} x 6 method lists (unset, lists, ALL, ALL with exclusions) x every host " +
+		Rule: "(conditions) full product of scheme {unset,http,https} x 12 method lists (unset, lists, ALL, ALL with exclusions, exclusions before ALL or before the method) x every host " +
 			"list of length 0-2 over {exact h1, exact h2, glob *.ex.com, regex, glob v*} x requests (3 methods x 2 schemes x 7 hosts); (routes) 7 route " +
 			"shapes (single, two singles, free, single+free, shared-prefix pair forcing descent-and-return, unnamed single, unnamed free) x " +
 			"path_params (none; exact/glob/regex on every named wildcard incl. the free one, matching and not) x 3 encoded-slash settings x request " +
-			"paths built from segments {v, v%20w, %5Bid%5D, a%2Fb, a%2fb, foo, bar, v.w, v%2Fw, a.ex.com}; (combined) 4 (thorough: 30) condition sets, " +
+			"paths built from segments {v, v%20w, %5Bid%5D, a%2Fb, a%2fb, foo, bar, v.w, v%2Fw, a.ex.com, r%2541, 100%25}; (combined) 4 (thorough: 30) condition sets, " +
 			"among them host globs with the same text as path_params globs (separator '.' vs '/'), x all route shapes x path_params x settings x 4 " +
 			"request (method, scheme, host) triples x all paths; executed through the real decision service (real request parsing, " +
 			"rule factory, radix tree, matchers, rule execution, header finalizer echoing Request.URL.Captures); oracle: reference matcher + decoded-capture model.",
@@ -543,7 +540,11 @@ func hostLists() [][]rulecfg.HostMatcher {
 	return out
 }
 
-var methodLists = [][]string{nil, {"GET"}, {"GET", "POST"}, {"ALL"}, {"ALL", "!GET"}, {"ALL", "!GET", "!POST"}, {"!GET"}}
+var methodLists = [][]string{
+	nil, {"GET"}, {"GET", "POST"}, {"ALL"}, {"ALL", "!GET"}, {"ALL", "!GET", "!POST"}, {"!GET"},
+	// the position of an exclusion in the list has no meaning
+	{"!GET", "ALL"}, {"!POST", "ALL", "!GET"}, {"POST", "GET"}, {"!POST", "GET", "POST"}, {"!DELETE", "GET", "ALL"},
+}
 
 type routeShapeDef struct {
 	routes []string
@@ -562,11 +563,12 @@ var shapes = []routeShapeDef{
 
 var paramMenu = []struct{ typ, val string }{
 	{"exact", "v"}, {"exact", "v w"}, {"glob", "v*"}, {"regex", `^\[id\]$`}, {"regex", "^a.*b$"}, {"regex", "^nomatch$"},
-	{"glob", "v?w"}, {"glob", "*.ex.com"},
+	{"glob", "v?w"}, {"glob", "*.ex.com"}, {"exact", "r%41"}, {"exact", "100%"},
 }
 
 func reqPaths() []string {
-	segs := []string{"v", "v%20w", "%5Bid%5D", "a%2Fb", "a%2fb", "foo", "bar", "v.w", "v%2Fw", "a.ex.com"}
+	// r%2541 / 100%25: an encoded percent sign, decoded exactly once (r%41, 100%)
+	segs := []string{"v", "v%20w", "%5Bid%5D", "a%2Fb", "a%2fb", "foo", "bar", "v.w", "v%2Fw", "a.ex.com", "r%2541", "100%25"}
 
 	var out []string
 
